@@ -22,6 +22,8 @@ def build(env, per_cell):
         for mode in gen.MODES:
             if aead == 0xFFFF:
                 export_only_session(cw, g, rnd, kem, kdf, mode)
+                if kdf in (1, 3):
+                    failing_seal_session(cw, g, rnd, kem, kdf, mode)
                 continue
             for j in range(per_cell):
                 s = cw.session(kem, kdf, aead, sid="q%d" % len(cw.sessions))
@@ -130,6 +132,30 @@ def build(env, per_cell):
                     s.call("open", ctx="U1", api="alloc", ct="$ta%d.full" % k, aad=aad, pair=k3, side="a", cmp="open_forms", path="genuine")
                     s.call("open", ctx="U2", api="inplace", ct="$tb%d.ct" % k, tag="$tb%d.tag" % k, aad=aad, pair=k3, side="b", cmp="open_forms", path="genuine")
     return cw
+
+
+def failing_seal_session(cw, g, rnd, kem, kdf, mode):
+    """The built-in AEADs only fail beyond 2^36 bytes; the mock AEAD of harness/src/probe.rs (public Aead trait, id 0x7777)
+    fails on request.  A seal that fails must be reported the same way by the single-shot form and by setup + seal."""
+    s = cw.session(kem, kdf, 0x7777, sid="q%d" % len(cw.sessions))
+    nsk = gen.nsk(kem)
+    gen.add_keys(s, g, kem, "kR")
+    gen.add_keys(s, g, kem, "kS")
+    pa = dict(psk=g.rbytes(32), pskid=g.rbytes(4)) if mode in (1, 3) else {}
+    sa = dict(sks="$kS.sk", pks="$kS.pk", **pa) if mode in (2, 3) else dict(pa)
+    rng = g.rbytes(nsk)
+    k = 0
+    for api in ("alloc", "inplace"):
+        for fail in (1, 0):
+            k += 1
+            path = "failing_seal" if fail else "mock_aead"
+            s.call("probe_ctl", fail_seal=fail)
+            s.call("ss_seal", mode=mode, pkr="$kR.pk", info="6162", pt="01020304", aad="05", rng=rng, api=api, pair=k, side="a", cmp="ss_seal", path=path, **sa)
+            s.call("probe_ctl", fail_seal=0)
+            s.call("setup_s", mode=mode, pkr="$kR.pk", info="6162", rng=rng, out="C%d" % k, **sa)
+            s.call("probe_ctl", fail_seal=fail)
+            s.call("seal", ctx="C%d" % k, api=api, pt="01020304", aad="05", pair=k, side="b", cmp="ss_seal", path=path, encfrom="C%d" % k)
+            s.call("probe_ctl", fail_seal=0)
 
 
 def export_only_session(cw, g, rnd, kem, kdf, mode):
